@@ -263,7 +263,7 @@ def run(ctx):
     import odml  # noqa
     _FP = fingerprint()
     rec.extra["default_rules"] = {k: len(v) for k, v in _FP.items()} if ctx.shard == 0 else {}
-    for i in range(ctx.pick(600, 20000)):
+    for i in range(ctx.pick(600, 100000)):
         if not ctx.mine(i):
             continue
         rng = ctx.rng("hist", i)
@@ -280,7 +280,7 @@ def run(ctx):
         if ctx.time_left() < 0:
             break
     # cross-process repeatability
-    nb = ctx.pick(100, 2000)
+    nb = ctx.pick(100, 8000)
     mine = [i for i in range(nb) if ctx.mine(i)]
     for b in range(0, len(mine), 25):
         idxs = mine[b:b + 25]
